@@ -55,7 +55,7 @@ class MemoryDC:
     def async_factory(self, host, port):
         st = tr.FakeStream(self._handler(port), eof_after_each_reply=False)
         self.sockets.append(st)
-        return st.reader, st.writer
+        return tr.StallDetectingReader(st), st.writer
 
     def ctx_factory(self, *a, **k):
         c = tr.ScriptedContext(self.client_tokens, self.client_complete_after, self.core.config.sig_size)
@@ -63,7 +63,14 @@ class MemoryDC:
         return c
 
     @contextlib.contextmanager
-    def installed(self):
+    def installed(self, scripted_auth: bool = True):
+        """scripted_auth=False keeps the real pyspnego client (use with core.config.security = ntlm|negotiate)."""
+        if not scripted_auth:
+            ensure_ntlm_credentials()
+            with tr.patched_connections(self.sync_factory, self.async_factory) as log:
+                self.connect_log = log
+                yield self
+            return
         with tr.patched_connections(self.sync_factory, self.async_factory) as log, tr.patched_spnego_client(self.ctx_factory) as calls:
             self.connect_log = log
             self.spnego_calls = calls
